@@ -69,14 +69,14 @@ func HarnessC16(m, withNil, withBase int) {
 			desc += fmt.Sprintf("Named(%s) ", sp)
 		case oY:
 			sp := hSpellY[vnChoice("spy", len(hSpellY), i)]
-			st := []string{"s", "other"}[vnChoice("sty", 2, i)]
+			st := []string{"s", "S"}[vnChoice("sty", 2, i)] // subtypes are case-sensitive keys
 			opts = append(opts, NamedSubtype(sp, hP2{pay[i]}, st))
 			if st == "s" {
 				key[i] = 1 // a value under another subtype of the same name sets a different key
 			}
 			desc += fmt.Sprintf("NamedSubtype(%s,%s) ", sp, st)
 		case oZ:
-			st := []string{"s", "other"}[vnChoice("stz", 2, i)]
+			st := []string{"s", "S"}[vnChoice("stz", 2, i)]
 			opts = append(opts, TypedSubtype(hP1{pay[i]}, st))
 			if st == "s" {
 				key[i] = 2
